@@ -163,7 +163,7 @@ func C15(rep *ev.Reporter, tier string) {
 				tr0 := hx.Run(b, c15World(), hx.RunOpts{MaxCycle: 6, ReturnErr: flag, DefaultChoice: order, Ctx: pc0, NoSnapshots: true})
 				P := pc0.Polls
 				E := len(tr0.Events) - 1 // without "ret:"
-				one := func(mode string, idx int, cause error) (string, string, bool, *hx.Trace) {
+				one := func(mode string, idx int, cause error, far bool) (string, string, bool, *hx.Trace) {
 					var pc *hx.PollCtx
 					o := hx.RunOpts{MaxCycle: 6, ReturnErr: flag, DefaultChoice: order, NoSnapshots: true}
 					switch mode {
@@ -183,6 +183,9 @@ func C15(rep *ev.Reporter, tier string) {
 						}
 					case "pre":
 						pc = hx.NewPollCtx(0, cause)
+					}
+					if far {
+						pc.DeadlineAt = time.Date(2999, 1, 1, 0, 0, 0, 0, time.UTC)
 					}
 					o.Ctx = pc
 					w := c15World()
@@ -206,18 +209,18 @@ func C15(rep *ev.Reporter, tier string) {
 					s, wh, nt := c15Judge(p.rules, cause, tr)
 					return s, wh, nt, tr
 				}
-				try := func(mode string, idx int, cname string, cause error) {
+				try := func(mode string, idx int, cname string, cause error, far bool) {
 					caseID := fmt.Sprintf("%s#f%v#o%d#%s%d#%s", p.id, flag, order, mode, idx, cname)
 					if rep.ReplayFilter != "" && rep.ReplayFilter != caseID {
 						return
 					}
-					sig, what, nt, tr := one(mode, idx, cause)
+					sig, what, nt, tr := one(mode, idx, cause, far)
 					atomic.AddInt64(&runs, 1)
 					if nt {
 						atomic.AddInt64(&nontrivial, 1)
 					}
 					if sig != "" {
-						s2, _, _, _ := one(mode, idx, cause)
+						s2, _, _, _ := one(mode, idx, cause, far)
 						if s2 != sig {
 							fmt.Printf("HARNESS-NONDETERMINISM property=C15 case=%s\n", caseID)
 							return
@@ -226,19 +229,21 @@ func C15(rep *ev.Reporter, tier string) {
 						rep.Violation(sig+":"+where, what+"\n  case: "+caseID+"\n  grl: "+strings.ReplaceAll(b.Prog.Text, "\n", "\n       "), map[string]interface{}{"case": caseID, "grl": b.Prog.Text, "events": tr.Events})
 					}
 				}
-				for ci, cause := range []error{context.Canceled, context.DeadlineExceeded} {
-					cname := []string{"canceled", "deadline"}[ci]
+				// canceled-before-deadline: the context carries a (far) deadline and is cancelled explicitly before it
+				for ci, cause := range []error{context.Canceled, context.DeadlineExceeded, context.Canceled} {
+					cname := []string{"canceled", "deadline", "canceled-before-deadline"}[ci]
+					far := ci == 2
 					for pidx := 1; pidx <= P+1; pidx++ {
 						atomic.AddInt64(&pollPoints, 1)
-						try("poll", pidx, cname, cause)
+						try("poll", pidx, cname, cause, far)
 					}
-					if ci == 0 {
+					if ci != 1 {
 						for e := 1; e <= E; e++ {
 							atomic.AddInt64(&eventPoints, 1)
-							try("event", e, cname, cause)
+							try("event", e, cname, cause, far)
 						}
 					}
-					try("pre", 0, cname, cause)
+					try("pre", 0, cname, cause, far)
 				}
 			}
 		}
@@ -256,7 +261,7 @@ func C15(rep *ev.Reporter, tier string) {
 		rep.Exhaustive = false
 		rep.Coverage["caps_hit"] = "time budget"
 	}
-	rep.Coverage["rule"] = "35 programs (all 1-rule, all ordered 2-rule, all 3-rule selections of 5 rule kinds with condition and action probes, Complete, never-true, self-disabling) x both flag values x every static rule order; a fault-free run counts the engine's Err() polls P and its observable events E; then one run for EVERY poll index 1..P+1 (Canceled and DeadlineExceeded), EVERY event index 1..E as cancellation trigger (inside a condition probe, inside an action probe, in BeginCycle / EvaluateRuleEntry / ExecuteRuleEntry callbacks) and the already-cancelled context. Oracle: no ExecuteRuleEntry and no action probe of another rule after the flip; already-cancelled: zero firings; the context's error is returned unless Complete was called or no active rule is satisfied on the final facts. Non-trivial: the context really flipped during the run."
+	rep.Coverage["rule"] = "35 programs (all 1-rule, all ordered 2-rule, all 3-rule selections of 5 rule kinds with condition and action probes, Complete, never-true, self-disabling) x both flag values x every static rule order; a fault-free run counts the engine's Err() polls P and its observable events E; then one run for EVERY poll index 1..P+1 (Canceled, DeadlineExceeded, and Canceled on a context that carries a deadline far in the future), EVERY event index 1..E as cancellation trigger (inside a condition probe, inside an action probe, in BeginCycle / EvaluateRuleEntry / ExecuteRuleEntry callbacks) and the already-cancelled context. Oracle: no ExecuteRuleEntry and no action probe of another rule after the flip; already-cancelled: zero firings; the context's error is returned unless Complete was called or no active rule is satisfied on the final facts. Non-trivial: the context really flipped during the run."
 	rep.Assumptions = append(rep.Assumptions, "a cancellation after the engine's last look at the context is indistinguishable from one after return and is accepted when no satisfied rule is left")
 }
 
